@@ -22,6 +22,7 @@ from mapproxy.image.opts import ImageOptions
 from mapproxy.source import SourceError
 from mapproxy.client.http import HTTPClientError
 from mapproxy.source import InvalidSourceQuery
+from mapproxy.srs import bbox_equals
 from mapproxy.layer import BlankImage, map_extent_from_grid, CacheMapLayer, MapLayer
 from mapproxy.util.py import reraise_exception
 
@@ -68,6 +69,13 @@ class TiledSource(MapLayer):
         _bbox, grid, tiles = self.grid.get_affected_tiles(query.bbox, query.size)
 
         if grid != (1, 1):
+            raise InvalidSourceQuery('BBOX does not align to tile')
+
+        # the one tile has to show the requested area (within a tenth of a pixel),
+        # not only contain it: it is returned as it is
+        if not bbox_equals(_bbox, query.bbox,
+                           abs((query.bbox[2] - query.bbox[0]) / query.size[0] / 10),
+                           abs((query.bbox[3] - query.bbox[1]) / query.size[1] / 10)):
             raise InvalidSourceQuery('BBOX does not align to tile')
 
         tile_coord = next(tiles)
